@@ -175,7 +175,8 @@ def decide_close(ob, name, p, code, ref, tol, *, domain=None, oracle=None, make_
     goal = (cz == rz) if tol == 0 else (zabs(cz - rz) <= tolz)
     ob_over = over_budget()
     known_bad = (pid, key or ob) in _CONFIRMED
-    v = solve.prove(conds, goal, timeout_s=(2 if (ob_over or known_bad) else timeout_s), seed=seed)
+    any_bad = bool(_CONFIRMED)
+    v = solve.prove(conds, goal, timeout_s=(2 if (ob_over or known_bad) else (4 if any_bad else timeout_s)), seed=seed)
     qs = [qrec('Q1' if tol == 0 else 'Q2', v)]
     _dbg(ob, name, v)
     if v.status == 'unsat':
@@ -183,8 +184,9 @@ def decide_close(ob, name, p, code, ref, tol, *, domain=None, oracle=None, make_
     if (pid, key or ob) in _CONFIRMED:
         return res(ob, name, 'inconclusive', qs, 'solver=%s; not examined further: a violation with the same key is already '
                    'confirmed (%s)' % (v.status, _CONFIRMED[(pid, key or ob)]), paths=paths)
-    if ob_over:
-        return res(ob, name, 'inconclusive', qs, 'solver=%s; group time budget exhausted, witness search skipped' % v.status, paths=paths)
+    if ob_over or (any_bad and BUDGET > 0 and _time.time() - _T0[0] > BUDGET / 3):
+        return res(ob, name, 'inconclusive', qs, 'solver=%s; group time budget exhausted (or a violation is already confirmed in this '
+                   'group), witness search skipped' % v.status, paths=paths)
     # witness search
     wit = None
     if domain is not None and oracle is not None:
@@ -237,7 +239,8 @@ def decide_goal(ob, name, conds, goal, *, timeout_s=30, seed=0, oracle=None, arg
     satisfy num_conds and falsify the goal under the true functions) are replayed instead."""
     ob_over = over_budget()
     known_bad = (pid, key or ob) in _CONFIRMED
-    v = solve.prove(conds, goal, timeout_s=(2 if (ob_over or known_bad) else timeout_s), seed=seed)
+    any_bad = bool(_CONFIRMED)
+    v = solve.prove(conds, goal, timeout_s=(2 if (ob_over or known_bad) else (4 if any_bad else timeout_s)), seed=seed)
     qs = [qrec('valid', v)]
     _dbg(ob, name, v)
     if ob_over and v.status != 'unsat':
